@@ -568,7 +568,9 @@ def setOwner (w : World) (snd rcv : Copy) (a : Addr) : Option (Copy × Copy × W
     let oc := w.getCopy a
     match sendBal rcv oc rcv.cur.bal with
     | none => none
-    | some (r, oc') => some (snd, r, (w1.put oc'.id oc'.cur).put r.id r.cur)
+    | some (r, oc') =>
+      -- a tx sent by aergo.name itself: `receiver = sender`, the debited record is the sender's too
+      some (if snd.id = rcv.id then r else snd, r, (w1.put oc'.id oc'.cur).put r.id r.cur)
 
 /-- `name.ExecuteNameTx`: `ValidateNameTx`, choice of `nameState`, CreateName / UpdateName /
 SetContractOwner, the `PutState`s inside. -/
@@ -654,6 +656,29 @@ def finishVm (w : World) (bp : Nat) (tx : Tx) (status : Status) (isFD : Bool) (o
   | some .runtime => runtimeBranch w o.w bp tx snd' rcv' o.fee o.leak o.dirty
   | none => successBranch o.w bp tx snd' rcv' o.fee status
 
+/-- `contract.Execute` when `receiver = sender` (the resolved recipient is the sender's own account and the
+tx is no REDEPLOY): ONE live record `acc`. `SendBalance(sender, receiver)` moves nothing (equal ids: no
+balance test either); the VM runs on that record as the called contract, and the balance-for-fee check
+reads that record whoever nominally pays. -/
+def executeOwn (c : Ctx) (w : World) (tx : Tx) (acc : Copy) (isFD : Bool) : ExecOut :=
+  let base := txBaseFee c tx.payloadLen
+  match checkExecution tx.type tx.amount tx.payloadLen c.version acc.deploy acc.cur.code with
+  | .notAllowed => { snd := acc, rcv := acc, w, fee := base, err := some .runtime }
+  | .skip => { snd := acc, rcv := acc, w, fee := base, err := none }
+  | .run =>
+    match gasLimit c isFD tx.gasLimit tx.payloadLen base acc.cur.bal acc.cur.bal with
+    | none => { snd := acc, rcv := acc, w, fee := base, err := some .runtime }
+    | some _ => vmCall w tx acc acc true base
+
+/-- what `executeTx` does with the result when `receiver = sender`: `SubBalance(txFee)` on the one record
+(`ExecOut.rcv` carries everything the VM did to it), then the error branch or the success branch -/
+def finishOwn (w : World) (bp : Nat) (tx : Tx) (status : Status) (o : ExecOut) : Result :=
+  let obj := o.rcv.subBalance o.fee
+  match o.err with
+  | some (.reject r) => { outcome := .rejected r, w, bp, dirty := o.dirty }
+  | some .runtime => runtimeBranch w o.w bp tx obj obj o.fee o.leak o.dirty
+  | none => successBranch o.w bp tx obj obj o.fee status
+
 /-- the receiver record of `executeTx`: `GetAccountState(recipient)` (flagged for REDEPLOY) or
 `CreateAccountState(CreateContractID(..))` -/
 def mkReceiver (w : World) (tx : Tx) : Except Rej (Copy × Status) :=
@@ -684,6 +709,8 @@ def executeTx (c : Ctx) (w : World) (bp : Nat) (tx : Tx) : Result :=
   match mkReceiver w tx with
   | .error r => rej r
   | .ok (rcv, status) =>
+  -- `receiver = sender`: the resolved recipient is the sender's own account (no REDEPLOY): one live record
+  let own : Bool := decide (tx.recipient = some tx.sender) && decide (tx.type ≠ .redeploy)
   match tx.type with
   | .governance =>
     let g := match tx.recipient with
@@ -701,8 +728,11 @@ def executeTx (c : Ctx) (w : World) (bp : Nat) (tx : Tx) : Result :=
       -- fee-delegation tx must be a contract; then the contract's own check_delegation may refuse
       if !rcv.cur.code then rej .other
       else if tx.script.nofd then rej .other
+      else if own then finishOwn w bp tx status (executeOwn c w tx snd true)
       else finishVm w bp tx status true (execute c w tx snd rcv true)
-  | _ => finishVm w bp tx status false (execute c w tx snd rcv false)
+  | _ =>
+    if own then finishOwn w bp tx status (executeOwn c w tx snd false)
+    else finishVm w bp tx status false (execute c w tx snd rcv false)
 
 /-! ## blocks -/
 
